@@ -150,6 +150,15 @@ func solveOne(i int, o *Obligation, cfg SolveCfg) {
 		return
 	}
 	f := writeSMT(cfg.OutDir, i, o, false)
+	if os.Getenv("GOVC_KEEP_OUT") == "" {
+		// the query text of a discharged obligation is regenerated on every run: keep only what failed
+		defer func() {
+			if o.Status == "discharged" {
+				os.Remove(f)
+				os.Remove(strings.TrimSuffix(f, ".smt2") + ".inst.smt2")
+			}
+		}()
+	}
 	if o.Kind == "vacuity" {
 		r := runSolver(context.Background(), solvers[0], f, 3)
 		o.Solver = r.solver
